@@ -23,6 +23,8 @@ type Case struct {
 	Fails   []Fail   `json:"fails,omitempty"`  // every failure found in this case (first one = Oracle/Sig)
 	Cells   []string `json:"cells,omitempty"`  // coverage cells hit (op/outcome classes)
 	Trivial bool     `json:"trivial,omitempty"`
+	CType   string   `json:"ctype,omitempty"`  // Coq type of the case term, when not the property's default
+	Check   string   `json:"check,omitempty"`  // Coq check function, when not the property's default
 }
 
 // Fail is one property failure observed on the implementation.
